@@ -201,7 +201,11 @@ SETTINGS = [("dt", [0.01, 0.02, 0.005, 0.0137]), ("G", [1.0, 0.5, 2.0]), ("softe
             ("testparticle_type", [0, 1]), ("gravity", ["basic", "compensated", "none"]),
             ("collision", ["none", "direct"]), ("boundary", ["none", "open"]),
             ("exact_finish_time", [0, 1]), ("force_is_velocity_dependent", [0, 1]),
-            ("rand_seed", [1, 12345]), ("ri_trace.r_crit_hill", [3.0, 4.0]), ("ri_janus.order", [2, 4, 6])]
+            ("rand_seed", [1, 12345]), ("ri_trace.r_crit_hill", [3.0, 4.0]), ("ri_janus.order", [2, 4, 6]),
+            ("ri_whfast.keep_unsynchronized", [0, 1]), ("ri_saba.keep_unsynchronized", [0, 1]), ("ri_ias15.adaptive_mode", [0, 1, 2, 3]),
+            ("ri_bs.min_dt", [0.0, 1e-5]), ("ri_bs.max_dt", [0.0, 0.05]), ("ri_trace.peri_crit_eta", [1.0, 2.0]),
+            ("ri_janus.scale_pos", [1e-16, 1e-14]), ("ri_janus.scale_vel", [1e-16, 1e-15]), ("ri_mercurius.safe_mode", [0, 1]),
+            ("ri_whfast.corrector2", [0, 1]), ("testparticle_hidewarnings", [0, 1])]
 
 
 def gen_particle(rng, star=False):
@@ -219,6 +223,7 @@ def gen_particle(rng, star=False):
 def gen_history(rng, nappend, structural=None, auto=None):
     """-> dict(init=..., ops=[...]).  structural in {None,'reset_after_whfast','remove_all','shrink_zero_reappear',
     'ias15_reset','switch_many','same_time','negzero'}; auto in {None,'interval','step'}"""
+    hist_tag = None
     n0 = rng.randint(1, 5)
     # BS keeps ODE buffers that do not survive collisions / particle edits between steps (heap overflow in
     # integrator_bs.c:330, outside C06): it gets histories of its own (steps, settings, snapshots)
@@ -258,6 +263,9 @@ def gen_history(rng, nappend, structural=None, auto=None):
                 out.append(["edit", rng.randint(0, 5), rng.choice(["x", "vy", "m", "r", "az", "last_collision"]), rng.uniform(-1, 1)])
             elif c < 95:
                 out.append(rng.choice([["hash", rng.randint(0, 5), rng.randint(1, 2 ** 32 - 1)], ["lrescale", rng.choice([-1.0, 0.5, 3.25])]]))
+            elif c < 97:
+                out.append(rng.choice([["varinit", rng.uniform(-1, 1)], ["variation_tp"], ["megno"], ["callback", rng.choice(["additional_forces", "post_timestep_modifications", "collision_resolve"])],
+                                       ["sett", rng.choice(["t0", "prev", 1e15, -3.5])], ["synchronize"], ["massless", rng.randint(1, 5)]]))
             else:
                 out.append(["nop"])
         return out
@@ -306,6 +314,54 @@ def gen_history(rng, nappend, structural=None, auto=None):
         ops.append(["snap"])
         for ch in changes[:max(4, min(len(changes), nappend))]:
             ops += [["change", ch], ["snap"], ["revert"]]
+    elif structural == "lazy_arrays":
+        # every integrator's lazily allocated persisted arrays: present in the first snapshot (taken after steps),
+        # changed by further steps, then the integrator is switched / reset
+        integ = rng.choice(["ias15", "whfast_unsafe", "mercurius_encounter", "bs", "janus", "trace_encounter", "saba", "eos", "sei", "leapfrog"])
+        init["particles"] = [gen_particle(rng, star=True), gen_particle(rng), gen_particle(rng)]
+        pre = []
+        if integ == "whfast_unsafe":
+            init["integrator"] = "whfast"
+            pre = [["set", "ri_whfast.safe_mode", 0], ["set", "ri_whfast.corrector", 11]]
+        elif integ in ("mercurius_encounter", "trace_encounter"):
+            init["integrator"] = integ.split("_")[0]
+            # two planets that start inside each other's Hill sphere: encounter arrays get allocated
+            init["particles"] = [gen_particle(rng, star=True), dict(m=1e-3, x=1.0, y=0.0, z=0.0, vx=0.0, vy=1.0, vz=0.0, r=0.0),
+                                 dict(m=1e-3, x=1.02, y=0.0, z=0.0, vx=0.0, vy=0.98, vz=0.0, r=0.0)]
+            init["dt"] = 0.01
+        else:
+            init["integrator"] = integ
+        ops = pre + [["steps", 3], ["snap"], ["steps", 2], ["snap"], ["synchronize"], ["snap"],
+                     ["integrator", rng.choice(["leapfrog", "ias15", "whfast"])], ["steps", 1], ["snap"], ["reset"], ["steps", 1], ["snap"]]
+        hist_tag = integ
+    elif structural == "time_games":
+        # time repeating, going backwards, huge: snapshots whose t equals t0 after other times, t < previous t
+        ops = [["snap"], ["steps", 2], ["snap"], ["sett", "t0"], ["snap"], ["steps", 1], ["snap"], ["sett", "prev"], ["snap"],
+               ["sett", -3.5], ["snap"], ["sett", "t0"], ["set", "G", 0.5], ["snap"], ["sett", 1e15], ["steps", 1], ["snap"]]
+    elif structural == "nothing_changed":
+        # consecutive snapshots with no change at all, also right after the first one
+        ops = [["snap"], ["snap"], ["snap"], ["steps", 2], ["snap"], ["snap"], ["set", "G", 0.5], ["set", "G", 1.0], ["snap"]]
+    elif structural == "roles":
+        # N_active < N, test particle types, massless and massive test particles, single active body
+        init["particles"] = [gen_particle(rng, star=True)] + [gen_particle(rng) for _ in range(4)]
+        init["particles"][3]["m"] = 0.0
+        ops = [["set", "N_active", rng.choice([1, 2])], ["set", "testparticle_type", rng.choice([0, 1])], ["steps", 2], ["snap"],
+               ["massless", 2], ["steps", 1], ["snap"], ["set", "N_active", 1], ["steps", 1], ["snap"], ["set", "testparticle_type", 1], ["variation_tp"],
+               ["varinit", 0.5], ["steps", 1], ["snap"]]
+    elif structural == "callbacks":
+        init["integrator"] = rng.choice(["leapfrog", "whfast", "ias15"])
+        ops = [["snap"], ["callback", "additional_forces"], ["steps", 1], ["snap"], ["callback", "post_timestep_modifications"], ["steps", 1], ["snap"],
+               ["callback", "collision_resolve"], ["set", "collision", "direct"], ["steps", 1], ["snap"], ["callback", "heartbeat"], ["steps", 1], ["snap"]]
+    elif structural == "variations":
+        init["integrator"] = rng.choice(["ias15", "leapfrog"])
+        init["particles"] = [gen_particle(rng, star=True), gen_particle(rng), gen_particle(rng)]
+        ops = [["steps", 1], ["snap"], ["variation", 1], ["varinit", 0.3], ["steps", 2], ["snap"], ["lrescale", -1.0], ["snap"], ["variation_tp"], ["varinit", -0.7],
+               ["steps", 1], ["snap"]] + ([["variation", 2], ["varinit", 0.1], ["steps", 1], ["snap"]] if init["integrator"] == "ias15" else []) + [["megno"], ["steps", 2], ["snap"]]
+    elif structural == "huge_n":
+        nbig = nappend if nappend >= 100 else 600
+        init["integrator"] = "leapfrog"
+        init["particles"] = [gen_particle(rng, star=True)] + [dict(m=0.0, x=1.0 + 0.001 * i, y=0.0, z=0.0, vx=0.0, vy=1.0, vz=0.0, r=0.0) for i in range(nbig)]
+        ops = [["set", "gravity", "none"], ["snap"], ["steps", 1], ["snap"], ["remove", 5], ["snap"], ["steps", 1], ["snap"]]
     elif structural == "same_time":
         ops = [["snap"], ["set", "G", 0.5], ["snap"], ["steps", 2], ["snap"], ["add", gen_particle(rng)], ["snap"]]
     elif structural == "negzero":
@@ -325,7 +381,7 @@ def gen_history(rng, nappend, structural=None, auto=None):
         direction = rng.choice(["fwd", "fwd", "bwd", "mixed"])
         for seg in range(rng.randint(1, 3)):
             sgn = 1 if direction == "fwd" else -1 if direction == "bwd" else (1 if (seg + rng.randint(0, 1)) % 2 == 0 else -1)
-            ops.append(["integrate", sgn * dt * rng.randint(3, 25), 0])
+            ops.append(["integrate", sgn * dt * (rng.randint(3, 25) + (0.4 if rng.chance(0.3) else 0.0)), rng.choice([0, 0, 1, None])])
             if rng.chance(0.5):
                 ops.append(["snap"])
             if rng.chance(0.3):
@@ -333,7 +389,7 @@ def gen_history(rng, nappend, structural=None, auto=None):
     else:
         for _ in range(nappend):
             ops += free_ops(rng.randint(1, 4)) + [["snap"]]
-    return dict(init=init, ops=ops, structural=structural, auto=auto)
+    return dict(init=init, ops=ops, structural=structural, auto=auto, tag=hist_tag)
 
 
 def _setpath(obj, path, val):
@@ -440,6 +496,8 @@ def run_history(rebound, hist, wd, load_back=True, keep_copies=False):
     caps = []   # (steps_done, t, path, copy) captured in the heartbeat during integrate
 
     def manual_snap():
+        state.setdefault("t0", sim.t)
+        state["tprev"] = sim.t
         sim.save_to_file(fn)
         if keep_copies:
             import shutil
@@ -528,6 +586,55 @@ def run_history(rebound, hist, wd, load_back=True, keep_copies=False):
                     setattr(sim.particles[op[1]], op[2], op[3])
                 else:
                     meta["skipped"].append(op)
+            elif o == "varinit":
+                if sim.N_var > 0:
+                    for i in range(sim.N - sim.N_var, sim.N):
+                        q = sim.particles[i]
+                        q.x += op[1] * (i + 1); q.vy -= 0.5 * op[1]; q.m += 0.01 * op[1]
+                    meta["events"].append("varinit")
+                else:
+                    meta["skipped"].append(op)
+            elif o == "variation_tp":
+                if sim.gravity == "basic" and sim.integrator in ("ias15", "leapfrog", "none") and sim.N - sim.N_var > 1 and not state.get("order2"):
+                    sim.add_variation(testparticle=sim.N - sim.N_var - 1)
+                    meta["events"].append("variation_tp")
+                else:
+                    meta["skipped"].append(op)
+            elif o == "megno":
+                if sim.gravity == "basic" and sim.integrator in ("ias15", "leapfrog") and sim.N_var == 0 and sim.N > 1:
+                    sim.init_megno()
+                    meta["events"].append("megno")
+                else:
+                    meta["skipped"].append(op)
+            elif o == "callback":
+                cbs = state.setdefault("cbs", [])
+                if op[1] == "collision_resolve":
+                    def cr(simp, col):
+                        return 0
+                    sim.collision_resolve = cr
+                    cbs.append(cr)
+                else:
+                    def cb(simp):
+                        return None
+                    setattr(sim, op[1], cb)
+                    cbs.append(cb)
+                meta["events"].append("callback:" + op[1])
+            elif o == "sett":
+                if op[1] == "t0":
+                    tv = state.get("t0", sim.t)
+                elif op[1] == "prev":
+                    tv = state.get("tprev", sim.t)
+                else:
+                    tv = op[1]
+                sim.t = tv
+                meta["events"].append("sett")
+            elif o == "synchronize":
+                sim.synchronize()
+            elif o == "massless":
+                if 0 < op[1] < sim.N - sim.N_var:
+                    sim.particles[op[1]].m = 0.0
+                else:
+                    meta["skipped"].append(op)
             elif o == "hash":
                 if op[1] < sim.N:
                     sim.particles[op[1]].hash = op[2]
@@ -567,11 +674,21 @@ def run_history(rebound, hist, wd, load_back=True, keep_copies=False):
                 # nothing changes until the archive heartbeat that follows) captures the live state
                 del caps[:]
                 nb0 = len(parse_archive(open(fn, "rb").read())) if os.path.exists(fn) else 0
-                sim.heartbeat = hb
-                try:
+                nocap = op[2] != 0
+                if nocap:
+                    # exact_finish_time = 1 / omitted: the last step is shortened (dt edited between the heartbeats), the live
+                    # state of an automatic snapshot cannot be captured from outside: count / times / cadence only
+                    def hb_light(simp):
+                        s_ = simp.contents
+                        caps.append(dict(steps=int(s_.steps_done), t=hex64(s_.t), path=None, copy=None, selfeq=False))
+                    sim.heartbeat = hb_light
+                    if op[2] is None:
+                        sim.integrate(sim.t + op[1])
+                    else:
+                        sim.integrate(sim.t + op[1], exact_finish_time=op[2])
+                else:
+                    sim.heartbeat = hb
                     sim.integrate(sim.t + op[1], exact_finish_time=op[2])
-                finally:
-                    pass
                 # final state (after synchronize): the archive heartbeat at the end of integrate sees this one
                 hbtrace = [(c["steps"], c["t"]) for c in caps]
                 fin_p = os.path.join(wd, "cfin.bin")
@@ -580,6 +697,8 @@ def run_history(rebound, hist, wd, load_back=True, keep_copies=False):
                 sim.save_to_file(fin_p)
                 fcp = sim.copy()
                 fin = dict(steps=int(sim.steps_done), t=hex64(sim.t), path=fin_p, copy=fcp, selfeq=bool(fcp == sim))
+                if nocap:
+                    state["exact_runs"] = state.get("exact_runs", 0) + 1
                 blobs = parse_archive(open(fn, "rb").read()) if os.path.exists(fn) else []
                 new = blobs[nb0:]
                 recs0 = blobs[0]["recs"] if blobs else []
@@ -592,9 +711,14 @@ def run_history(rebound, hist, wd, load_back=True, keep_copies=False):
                     src = fin if (sd == fin["steps"] and (st >= 0 or not cand)) else (cand[-1] if cand else None)
                     k = len(meta["appends"])
                     p = os.path.join(wd, "s%d.bin" % k)
-                    if src is None:
-                        meta["appends"].append(dict(kind="auto", t=None, steps=int(sd), N=-1, selfeq=False, nocapture=True))
+                    if src is None or nocap:
+                        tb = rec_value(recs, T_ID)
+                        meta["appends"].append(dict(kind="auto", t=tb[::-1].hex(), steps=int(sd), N=-1, selfeq=False, nocapture=True))
                         kept.append(None)
+                        if state["auto"][0] == "interval":
+                            state["next"] = state["next"] + (1.0 if sim.dt > 0 else -1.0) * state["auto"][1]
+                        else:
+                            state["next"] = state["next"] + state["auto"][1]
                         continue
                     # the archive heartbeat advances the cadence state *before* it saves: the prescribed
                     # next output time / step (previous + interval, exactly) is part of the snapshot
